@@ -149,8 +149,16 @@ def opDEC (args obs : List String) : Option DecOut :=
         -- MessageOptions / HeloOpts / AckMessage merge into the receiver by msgp's design)
         let c18Scope := ["Message", "MessageExt", "Forward", "Packed", "Entry", "EntryExt", "EntryList"].contains ty
         let f18 := if fresh.isEmpty || !c18Scope then [] else
-          if " ".intercalate fresh == go then [] else ["C18 used-receiver-differs-from-fresh",
-            "C01 the decoded value differs from what the bytes denote (it depends on what the receiver held before)"]
+          if " ".intercalate fresh == go then [] else
+            -- the chunk id of the options, as rendered: `opt=O(<size>,<chunk hex>,<compressed hex>)` / `opt=N`
+            let chunkOf (r : String) : String := match (r.splitOn "opt=O(") with
+              | [_, rest] => ((rest.splitOn ",").drop 1).headD ""
+              | _ => ""
+            ["C18 used-receiver-differs-from-fresh",
+             "C01 the decoded value differs from what the bytes denote (it depends on what the receiver held before)"] ++
+            (if chunkOf (" ".intercalate fresh) != chunkOf go then
+              ["C12 the chunk id a decoded message reports is not the one its bytes carry: it was taken over from what the receiver held before (asking it for its id, or re-encoding it, repeats another message's id)"]
+             else [])
         -- C19 (decode side, through the message decoders): a timestamp extension (type 0) that is not exactly eight
         -- bytes long must make the decode fail
         let badTs (o : Obj) : Bool := match o with | .ext t d => t == 0 && d.length != 8 | _ => false
